@@ -39,6 +39,9 @@ def rset(name):
         R = [r + (0,) for r in itertools.product((-1, 0, 1), repeat=2)]
     elif name == "chain":
         R = [(i, 0, 0) for i in (-2, -1, 0, 1, 2)]
+    elif name == "r15":      # exactly 15 vectors: the text formats print 15 degeneracies per header line
+        half = [(1, 0, 0), (0, 1, 0), (0, 0, 1), (1, 1, 0), (1, 0, 1), (0, 1, 1), (1, -1, 0)]
+        R = [(0, 0, 0)] + half + [tuple(-x for x in r) for r in half]
     elif name == "cube2":
         R = [r for r in itertools.product((-2, -1, 0, 1, 2), repeat=3) if max(abs(x) for x in r) <= 2 and sum(abs(x) for x in r) <= 3]
     else:
